@@ -23,7 +23,7 @@ PID = "C04"
 T_ANALYTIC = 1e-8       # |S_code - FT| / S(0), analytic spectra (quadrature + special functions are at 1e-13)
 T_HANKEL = 1e-2         # default numerical path at HANKEL_DEFAULT, k = 0 and k*l >= 1 (measured <= 3.8e-3, falls like 1/k)
 KEY_HANKEL_SMALLK = "default-hankel:0<k*len_rescaled<1"
-KEY_TPLEXP_TAIL = "TPLExponential:hurst>=0.5:k*len_rescaled>=1e7:nonfinite"
+KEY_TPLEXP_TAIL = "TPLExponential:far-tail:k*len_rescaled>=1e7:hyp2f1-argument-rounds-to-1"
 KEY_INTEGRAL_UNDERFLOW = "Integral:nu>=20:0<k*len_rescaled<=1e-5:x**s-underflow"
 
 
@@ -129,8 +129,24 @@ def edges_for(rmax, k, kinks=(), grade=44):
     return np.array(sorted(set(e)))
 
 
+class ReferenceUnavailable(Exception):
+    """model.correlation is not a usable integrand (non-finite or outside [-1, 1] on the quadrature nodes): that is a defect
+    of the correlation (property C03), and no reference transform exists for this case"""
+
+
+def checked(cor):
+    def f(r):
+        v = np.asarray(cor(r), dtype=float)
+        if not np.all(np.isfinite(v)) or np.any(np.abs(v) > 1 + 1e-6):
+            raise ReferenceUnavailable("correlation not finite / outside [-1,1] at %d of %d nodes" % (
+                int(np.sum(~np.isfinite(v) | (np.abs(v) > 1 + 1e-6))), v.size))
+        return v
+    return f
+
+
 def ft_forward(cor, d, k, rmax, kinks=()):
     """S(k) = (2 pi)^-d int rho(|r|) e^{ik.r} d^d r of a radial function supported (numerically) on [0, rmax]"""
+    cor = checked(cor)
     if d == 1:
         g = lambda r: cor(r) * np.cos(k * r) / np.pi
     elif d == 2:
@@ -249,8 +265,36 @@ def chk_corr(drv, case):
                 return (impl is None) == (mod is None) or not has, dict(impl=impl, model=mod)
         else:
             raise ValueError(fn)
-    ok = C.close(impl, mod, rtol=1e-9)
-    return ok, dict(impl=C.fhex(impl), model=C.fhex(mod), impl_f=impl, model_f=mod)
+    scale = corr_scale(m, name, d, params, fn, x, var)
+    if scale is None:
+        ok = C.close(impl, mod, rtol=1e-9)
+    elif fn == "lnpdf":
+        # the log of a value that is rounding noise of a cancelling difference is not comparable: compare in pdf space
+        ok = C.close(math.exp(impl) if np.isfinite(impl) else 0.0, math.exp(mod) if np.isfinite(mod) else 0.0, rtol=1e-9, scale=scale)
+    else:
+        ok = C.close(impl, mod, rtol=1e-9, scale=scale)
+    return ok, dict(impl=C.fhex(impl), model=C.fhex(mod), impl_f=impl, model_f=mod, scale=scale)
+
+
+def corr_scale(m, name, d, params, fn, x, var):
+    """comparison scale (DESIGN 3.4: sum of the absolute values of the accumulated terms).  Only the lower cut-off
+    superposition (fac_up*spec_up - fac_low*spec_low)/(fac_up - fac_low) cancels; everything else is compared relatively."""
+    if name not in ("TPLGaussian", "TPLExponential") or m.len_low_rescaled == 0.0 or fn in ("cdf", "ppf"):
+        return None
+    from gstools.tools.special import tpl_exp_spec_dens, tpl_gau_spec_dens
+    f = tpl_gau_spec_dens if name == "TPLGaussian" else tpl_exp_spec_dens
+    k = np.array([abs(x) if fn in ("pdf", "lnpdf") else x], dtype=float)
+    h, low, l = m.hurst, m.len_low_rescaled, m.len_rescaled
+    with np.errstate(all="ignore"):
+        fu, fl = (l + low) ** (2 * h), low ** (2 * h)
+        sc = float((fu * abs(f(k, d, l + low, h)[0]) + fl * abs(f(k, d, low, h)[0])) / (fu - fl))
+    if not np.isfinite(sc):
+        return None
+    if fn in ("pdf", "lnpdf"):
+        sc *= {1: 2.0, 2: 2 * math.pi * abs(x), 3: 4 * math.pi * x * x}[d]
+    if fn == "spectrum":
+        sc *= var
+    return sc
 
 
 def chk_ft(case):
@@ -385,12 +429,16 @@ CHECKS = dict(ft=chk_ft, jb_inverse=chk_jb_inverse, int_pdf=chk_int_pdf, cdf_pdf
 
 # --------------------------------------------------------------------------- run
 
-def case_key(case):
+def case_key(case, detail=None):
     k = case["kind"]
     if k == "ft" and case["cls"] in DEFAULT_PATH and not case.get("hankel_kw") and 0 < case["kl"] < 1:
         return KEY_HANKEL_SMALLK
     if k == "ft" and case["cls"] == "Integral" and case["params"]["nu"] >= 20 and 0 < case["kl"] <= 1e-5:
         return KEY_INTEGRAL_UNDERFLOW
+    if k == "int_pdf" and case["cls"] == "TPLExponential" and detail and detail.get("err", 1.0) <= 1e-3:
+        return KEY_TPLEXP_TAIL       # the radial mass lost / gained where the far-tail density is wrong (3e-7 .. 2e-4 as hurst -> 0.5)
+    if k == "int_pdf" and case["cls"] == "Integral" and case["params"]["nu"] >= 20 and detail and detail.get("err", 1.0) <= 1e-4:
+        return KEY_INTEGRAL_UNDERFLOW  # 1D: the pdf is 0 instead of 2 S(0) for k*l < 2.4e-6 (nu = 50): 3e-6 of the mass
     if k == "tail_finite" and case["cls"] == "TPLExponential" and case["params"]["hurst"] >= 0.5 and case["kl"] >= 1e7:
         return KEY_TPLEXP_TAIL
     return "%s:%s:d%d" % (k, case.get("cls", "JBessel"), case["dim"])
@@ -411,6 +459,10 @@ def run_probe(ctx, case, hist=None):
     kind = case["kind"]
     try:
         ok, detail = CHECKS[kind](case)
+    except ReferenceUnavailable as e:
+        ctx.skipped = getattr(ctx, "skipped", 0) + 1
+        ctx.skip_example = "%s dim=%d %s: %s" % (case.get("cls"), case["dim"], case.get("params"), e)
+        return True, {}
     except Exception as e:   # the implementation (or the reference) raised on this input
         ok, detail = False, dict(exception=repr(e))
     trivial = kind in ("pdf_statement",) and False
@@ -420,7 +472,7 @@ def run_probe(ctx, case, hist=None):
     if not ok:
         ctx.violation("probe: %s" % kind, "%s fails for %s dim=%d %s: %s" % (kind, case.get("cls", "JBessel"), case["dim"], case.get("params", {}),
                                                                           json.dumps(detail, default=str)[:300]),
-                      dict(case=case, detail=detail), key=case_key(case))
+                      dict(case=case, detail=detail), key=case_key(case, detail))
     return ok, detail
 
 
@@ -539,6 +591,9 @@ def probes(ctx, rng):
                         run_probe(ctx, dict(kind="ft", cls=name, dim=d, len_scale=ls, rescale=rs, params=params, kl=kl, tol=T_HANKEL),
                                   hist=dict(path="hankel-default-smallk"))
             ctx.sample(dict(stage="probe ft", cls=name, dim=d, params=psets[0]))
+    if getattr(ctx, "skipped", 0):
+        ctx.notes.append("%d transform cases skipped because model.correlation itself is not finite / not in [-1,1] on the quadrature nodes "
+                         "(Integral with large non-integer nu next to r = 0: exp_int recursion; a C03 matter), e.g. %s" % (ctx.skipped, ctx.skip_example))
     ctx.notes.append("largest |S_code - FT|/S(0) per class on this run (default-path classes: k=0 and k*l>=1 only): %s" % json.dumps(
         {k: float("%.2g" % v) for k, v in worst.items()}))
     # ---- mpmath cross-check of the panel quadrature itself (rotating subset)
@@ -559,9 +614,9 @@ def probes(ctx, rng):
                 psets = [psets[i] for i in sorted(rng.choice(len(psets), size=min(2, len(psets)), replace=False))]
             for params in psets:
                 # tail cut at e^260 / l: relative mass beyond is < 1e-19 for every exponent used here (quadrature ~1e-12) -> 1e-6;
-                # TPLExponential with hurst >= 0.5: the code's density is non-finite (pdf 0) beyond k*l ~ 3e6..1e7 (known finding),
-                # the pdf ~ k^-2 ln k loses up to 5e-6 of the mass there -> 2e-5 for these
-                tol = 2e-5 if (name == "TPLExponential" and params["hurst"] >= 0.5) else 1e-6
+                # TPLExponential: the far-tail density is wrong beyond k*l ~ 1e7 (known finding); deviations up to 1e-3 of the
+                # mass are attributed to it (case_key), the pointwise transform probes cover k*l <= 100 at 1e-8
+                tol = 1e-6
                 run_probe(ctx, dict(kind="int_pdf", cls=name, dim=d, len_scale=lu(rng, 0.05, 50), rescale=1.0, params=params, tol=tol))
     # ---- cdf / ppf
     for name in ("Gaussian", "Exponential"):
